@@ -4,6 +4,7 @@ import LexgenModel.Exec.MachineWF
 import LexgenModel.Model.TableGen
 import LexgenModel.Model.Parser
 import LexgenModel.Model.ParserDef
+import LexgenModel.Exec.SpecRun
 /-!
 # `lexmodel`: line-protocol driver of the executable model (correspondence side; no proofs here)
 -/
@@ -270,6 +271,22 @@ def runTrace (cfg : Config U Nat Nat) (short : Bool) : Nat → LState U → List
       let line := s!"N {showItem (some item)} | S {st'.state} {st'.initial} {if st'.done then 1 else 0} {saved} | U {st'.user.counter} | {logs}"
       runTrace cfg short n { st' with user := { st'.user with log := [] } } (line :: acc)
 
+/-- Run `n` calls of `next()` of the REFERENCE lexer of the definition (`specNext`, `mach = spec`), one
+trace line per call, in the format of the Python reference (`reflex.py`): as `runTrace`, except that the two
+state fields after `S` are the NAME of the active rule set (twice; `_` for a definition without rule sets)
+and the `saved` field is `0` (no saved match survives a call) or `-` for long inputs. -/
+def runSpecTrace (items : LexerDef) (cfg : Config U Nat Nat) (short : Bool) : Nat → LState U → List String → List String
+  | 0, _, acc => acc.reverse
+  | n + 1, st, acc =>
+    match specNext items cfg (st.iter.length + 2) st with
+    | none => (s!"N HANG" :: acc).reverse
+    | some (item, st') =>
+      let logs := " ; ".intercalate st'.user.log
+      let saved := if short then "0" else "-"
+      let name := activeName items cfg st'.initial
+      let line := s!"N {showItem (some item)} | S {name} {name} {if st'.done then 1 else 0} {saved} | U {st'.user.counter} | {logs}"
+      runSpecTrace items cfg short n { st' with user := { st'.user with log := [] } } (line :: acc)
+
 /-! ## Stage comparison -/
 
 def accEqExact (a b : List Acc) : Bool := a == b
@@ -525,7 +542,13 @@ def runCase (prog : String) (pd : ParsedDef) (dump : Dump) (model : Option Compi
             actions := mkActions pd.kinds pd.ruleSets withText, width := width,
             input := if withText then some chars else none }
         let st : LState U := initState { script := (script.map toNat!).toArray } chars
-        [s!"TRACE {prog} {cid}"] ++ runTrace cfg (decide (chars.length ≤ 64)) (toNat! ncalls) st [] ++ ["ENDTRACE"]
+        let short := decide (chars.length ≤ 64)
+        -- `mach = spec`: the reference lexer of the definition; `cfg` (the model's own compiled machine) is
+        -- only used for `callAction`/`switchNum`
+        let trace :=
+          if mach = "spec" then runSpecTrace pd.items cfg short (toNat! ncalls) st []
+          else runTrace cfg short (toNat! ncalls) st []
+        [s!"TRACE {prog} {cid}"] ++ trace ++ ["ENDTRACE"]
     | _ => [s!"BADCASE {line}"]
   | _ => [s!"BADCASE {line}"]
 
